@@ -7,6 +7,7 @@ toolchain go1.24.0
 require (
 	connectrpc.com/connect v1.18.1
 	github.com/anishathalye/porcupine v1.3.0
+	github.com/aws/aws-sdk-go-v2/service/kinesis v1.32.10
 	google.golang.org/protobuf v1.36.3
 	reduction.dev/reduction v0.0.0
 	reduction.dev/reduction-protocol v0.0.5-0.20250502133230-e5852cf15cdc
@@ -32,10 +33,16 @@ require (
 	github.com/aws/aws-sdk-go-v2/service/ssooidc v1.28.8 // indirect
 	github.com/aws/aws-sdk-go-v2/service/sts v1.33.6 // indirect
 	github.com/aws/smithy-go v1.22.1 // indirect
+	github.com/davecgh/go-spew v1.1.1 // indirect
 	github.com/google/btree v1.1.3 // indirect
+	github.com/jmespath/go-jmespath v0.4.0 // indirect
+	github.com/pmezard/go-difflib v1.0.0 // indirect
+	github.com/segmentio/ksuid v1.0.4 // indirect
+	github.com/stretchr/testify v1.10.0 // indirect
 	github.com/valyala/fastrand v1.1.0 // indirect
 	github.com/valyala/histogram v1.2.0 // indirect
 	golang.org/x/sync v0.12.0 // indirect
+	gopkg.in/yaml.v3 v3.0.1 // indirect
 )
 
 replace reduction.dev/reduction => /repo
